@@ -824,7 +824,9 @@ def judge(res, hist, vfs, R, record_sample=False):
         env_before = env_after(hist[:pos])
         if out != R.call(env_before, si):
             res.counters['call_outcomes_differing'] += 1
-            if pos == last:  # (for pos < last this very comparison is the last one of the enumerated history hist[:pos+1])
+            if hist[:pos + 1] == ENV_PREFIX[env_before] + [si]:
+                res.error(f'outcome of {NAMES[si]} alone in a clean process is not deterministic: {jdump(out)[:300]} / {jdump(R.call(env_before, si))[:300]}')
+            elif pos == last:  # (for pos < last this very comparison is the last one of the enumerated history hist[:pos+1])
                 def pred(r2, h2, si=si):
                     return r2.outs[-1] != R.call(env_after(h2[:-1]), si)
 
@@ -848,7 +850,9 @@ def judge(res, hist, vfs, R, record_sample=False):
     res.outcomes.add(h64(run.battery))
     res.outcomes.add(h64(run.gs[-1]) if run.gs else 0)
     diff = [name for name, _ in PROBES if run.battery[name] != R.bat(env)[name]]
-    if diff:
+    if diff and hist == ENV_PREFIX[env]:
+        res.error(f'probe battery in a clean process is not deterministic: {diff}')
+    elif diff:
         res.counters['batteries_differing'] += 1
         first = diff[0]
 
@@ -869,7 +873,9 @@ def judge(res, hist, vfs, R, record_sample=False):
     # (iii) reuse
     res.clauses['C12.reuse'] += 1
     rdiff = [k for k in R.reu(env) if run.reuse[k] != R.reu(env)[k]]
-    if rdiff:
+    if rdiff and hist == ENV_PREFIX[env]:
+        res.error(f'reuse results in a clean process are not deterministic: {rdiff}')
+    elif rdiff:
         res.counters['reuse_results_differing'] += 1
         first_r = rdiff[0]
 
